@@ -116,17 +116,26 @@ static Csr<double> gs_matrix_random(Tape &t, Ctx &c, bool &nonsym) {
         if (k2) rows[e.second][e.first] = exact ? -t.ival(1, 3) : -t.logu(0.1, 10);
         if (k1 != k2) nonsym = true;
     }
-    for (int i = 0; i < g.n; ++i) { double s = 0; for (auto &kv : rows[i]) s += std::abs(kv.second); rows[i][i] = exact ? std::ldexp(1.0, static_cast<int>(std::ceil(std::log2(s + 1.0))) + static_cast<int>(t.u(0, 1))) : (s + t.logu(0.1, 2)); }
+    // rows without a stored diagonal entry are relaxed with D = I by the serial and by the level-scheduled sweep alike
+    // (gauss_seidel.hpp initialises D with the identity for every row): valid input for thread-count independence
+    bool nodiag = t.chance(1, 4); int ndrop = 0;
+    for (int i = 0; i < g.n; ++i) {
+        double s = 0; for (auto &kv : rows[i]) s += std::abs(kv.second);
+        double d = exact ? std::ldexp(1.0, static_cast<int>(std::ceil(std::log2(s + 1.0))) + static_cast<int>(t.u(0, 1))) : (s + t.logu(0.1, 2));
+        if (nodiag && t.chance(1, 3)) { ++ndrop; continue; }
+        rows[i][i] = d;
+    }
     c.label("fam:" + g.family);
-    c.desc << g.family << " n=" << g.n << " q=" << q << "/8 " << (exact ? "exact" : "real");
+    if (ndrop) c.label("rows-without-stored-diagonal");
+    c.desc << g.family << " n=" << g.n << " q=" << q << "/8 " << (exact ? "exact" : "real") << " rows_without_diagonal=" << ndrop;
     return from_triplets<double>(g.n, g.n, rows);
 }
 
-static Csr<double> matrix_from_mask(int n, uint32_t mask, bool &nonsym) {
+static Csr<double> matrix_from_mask(int n, uint32_t mask, bool &nonsym, uint32_t nodiag = 0) {
     std::vector<std::map<ptrdiff_t, double>> rows(n);
     int b = 0;
     for (int i = 0; i < n; ++i) for (int j = 0; j < n; ++j) {
-        if (i == j) { rows[i][i] = 4.0; continue; }
+        if (i == j) { if (!(nodiag >> i & 1)) rows[i][i] = 4.0 * (1 + i % 2); continue; }
         if (mask >> b & 1) rows[i][j] = -1.0 - 0.25 * ((i * 7 + j * 3) % 4);
         ++b;
     }
@@ -193,9 +202,13 @@ static void prop_gs_random(Tape &t, Ctx &c) {
 static void prop_gs_mask(Tape &t, Ctx &c) {
     int n = static_cast<int>(t.u(1, 5));
     uint32_t mask = static_cast<uint32_t>(t.u(0, (1u << (n * (n - 1))) - 1));
+    // third word: 0 .. 2^(n+1)-1 -> every diagonal stored; 2^(n+1) + m -> rows in bit mask m have no stored diagonal
+    int64_t dw = t.u(0, 3 * (int64_t(1) << n) - 1);
+    uint32_t nodiag = dw >= (int64_t(2) << n) ? static_cast<uint32_t>(dw - (int64_t(2) << n)) : 0;
     bool nonsym;
-    Csr<double> A = matrix_from_mask(n, mask, nonsym);
-    c.desc << "mask n=" << n << " mask=" << mask;
+    Csr<double> A = matrix_from_mask(n, mask, nonsym, nodiag);
+    if (nodiag) c.label("rows-without-stored-diagonal");
+    c.desc << "mask n=" << n << " mask=" << mask << " nodiag=" << nodiag;
     check_gs(A, t, c, nonsym);
 }
 
@@ -318,7 +331,19 @@ static std::vector<Enum> enums() {
         };
         return e;
     };
-    return {mk("gs_all_patterns_t4", "gs_mask", 4), mk("gs_all_patterns_t5", "gs_mask", 5), mk("ilu_all_patterns_t4", "ilu_mask", 4), mk("ilu_all_patterns_t5", "ilu_mask", 5)};
+    auto mkd = [](const char *name, int threads) {
+        Enum e; e.name = name; e.prop = "gs_mask"; e.threads = threads;
+        e.scope_quick = "all n x n off-diagonal sparsity patterns x all sets of rows without a stored diagonal entry, n <= 3 (plus n = 4 with every 5th pattern)";
+        e.scope_thorough = "all n x n off-diagonal sparsity patterns x all sets of rows without a stored diagonal entry, n <= 4";
+        e.gen = [](const std::string &tier, const Emit &emit) {
+            for (int n = 1; n <= 4; ++n) for (uint32_t m = 0; m < (1u << (n * (n - 1))); ++m) {
+                if (n == 4 && tier != "thorough" && m % 5 != 0) continue;
+                for (uint32_t d = 1; d < (1u << n); ++d) emit({static_cast<uint32_t>(n - 1), m, (2u << n) + d});
+            }
+        };
+        return e;
+    };
+    return {mkd("gs_all_patterns_nodiag_t4", 4), mkd("gs_all_patterns_nodiag_t5", 5), mk("gs_all_patterns_t4", "gs_mask", 4), mk("gs_all_patterns_t5", "gs_mask", 5), mk("ilu_all_patterns_t4", "ilu_mask", 4), mk("ilu_all_patterns_t5", "ilu_mask", 5)};
 }
 
 VF_MAIN(props(), enums())
